@@ -206,15 +206,18 @@ CHECKS = {
                       "clients against stub-runner units; a monitor on every status rewrite (old and new record read under the writer's lock "
                       "through the step hook) and on every client-visible report checks stage monotonicity, frozen succeeded units and "
                       "non-shrinking sizes; released units must be gone from disk and from every later answer; IDs and directories unique",
-        "level_note": "the stub runner has no pid, so 'cancel stops the process' is not covered in this mode (see DESIGN.md)",
+        "level_note": "about 1 run in 20 replaces the stub runner by the real runner binary built from the tree (real shell payloads, some "
+                      "ignoring SIGINT), parked and released at its file steps through the step gate: there 'cancel stops the process' is "
+                      "checked against /proc, and the runner process's own writes are checked for forward-only stages",
+        "needs_receptor": True,
         "quick": {"runs": 320, "per_proc": 20},
         "thorough": {"runs": 20000, "per_proc": 50},
         "hang_is_violation": True,
         "proc_timeout": 600,
         "rule": "one run = 6-50 operations; distinct_nontrivial counts distinct (units, released, operation-kind set) classes",
-        "real": ["pkg/workceptor (all but the runner process)", "pkg/controlsvc"],
-        "stub": ["command-runner process (stub)", "inotify"],
-        "assumptions": [],
+        "real": ["pkg/workceptor (daemon side in every run; the command-runner process in the real-runner runs)", "pkg/controlsvc"],
+        "stub": ["command-runner process (stub) in 19 of 20 runs", "inotify"],
+        "assumptions": ["real-runner runs use wall-clock time (a child process cannot live on the simulated clock); their oracles depend on order and stored data only"],
         "selftest": False,
     },
     "C14": {
@@ -225,7 +228,10 @@ CHECKS = {
                       "releasing a task into a lock step only when a non-blocking flock probe succeeds; every history is checked with "
                       "porcupine against a sequential record model, plus per-owner update counts and parse results of every load",
         "level_note": "the exclusion exercised is the real flock on real files; daemon goroutines are admitted into an operation one at a time "
-                      "(they serialise on the unit's mutex in the code); histories are <= 24 operations so the linearizability check is exact",
+                      "(they serialise on the unit's mutex in the code); histories are <= 24 operations so the linearizability check is exact; "
+                      "about 1 run in 50 pits the daemon against the real runner binary instead (order of the two first updates decided by the "
+                      "simulator through the step gate; fields owned by the daemon must survive every update of the runner process)",
+        "needs_receptor": True,
         "quick": {"runs": 3000, "per_proc": 300},
         "thorough": {"runs": 300000, "per_proc": 2000},
         "hang_is_violation": True,
